@@ -23,6 +23,7 @@ type HarnessSpec struct {
 	Covers   []string       `json:"covers"`
 	SkipQuick bool          `json:"skip_quick"`
 	MaxSteps int            `json:"max_steps"`
+	Solver   string         `json:"solver"` // back end for this harness when none is forced on the command line (z3 | z3-new | cvc5)
 	Logic    string         `json:"logic"` // SMT logic for this harness (default QF_BV; QF_FPBV when floats are symbolic)
 }
 
@@ -317,6 +318,10 @@ func cmdCheck(args []string) int {
 			e.cfg.MaxSteps = cfg.MaxSteps
 		}
 		e.cfg.Logic = h.Logic
+		e.cfg.Solver = cfg.Solver
+		if cfg.Solver == "" && h.Solver != "" {
+			e.cfg.Solver = h.Solver
+		}
 		pkgName := spec.Pkg
 		if h.Pkg != "" {
 			pkgName = h.Pkg
